@@ -8,18 +8,40 @@
 EXTENDS Revocation, Json
 
 RevSeqs == UNION { [1..L -> 1..Other] : L \in 0..MaxRev }
-WitRecs == [issued : {TRUE}, idx : 0..MaxRev, t : {0, 1}, good : BOOLEAN]
-UpdRecs == [made : {TRUE}, first : 0..(MaxRev + 1), last : 0..MaxRev, t : {0, 1}, memo : {None} \cup 0..MaxRev]
+WitRecs == [issued : {TRUE}, idx : 0..MaxRev, o : {1}, good : BOOLEAN]
+UpdRecs == [made : {TRUE}, first : 0..(MaxRev + 1), last : 0..MaxRev, o : {2}, memo : {None} \cup 0..MaxRev]
 
 GenInit == /\ rev \in RevSeqs
            /\ wit \in [W -> WitRecs]
            /\ upd \in [U -> UpdRecs]
+           /\ tobj \in [1..2 -> {0, 1}]      \* NW = NU = 1, Spare = 0: object 1 = the witness's, 2 = the update's
            /\ nstep = 0 /\ last = NoResult
            /\ Reach
 GenNext == \/ \E w \in W, k \in U : Apply(w, k)
            \/ \E k \in U, g \in 0..MaxRev, h \in 0..MaxRev, p \in BOOLEAN : Prepend(k, g, h, p)
-GenSpec == GenInit /\ [][GenNext]_vars
 
-EmitT == PrintT(<<"T", ToJson([rev |-> rev, wit |-> wit[1], upd |-> upd[1], act |-> last',
-                               pwit |-> wit'[1], pupd |-> upd'[1]])>>)
+\* projection to what the harness constructs and observes (times instead of object pointers)
+PW(wt, tt) == [issued |-> wt.issued, idx |-> wt.idx, t |-> tt[wt.o], good |-> wt.good]
+PU(ut, tt) == [made |-> ut.made, first |-> ut.first, last |-> ut.last, t |-> tt[ut.o], memo |-> ut.memo]
+EmitT == PrintT(<<"T", ToJson([rev |-> rev, wit |-> PW(wit[1], tobj), upd |-> PU(upd[1], tobj), act |-> last',
+                               pwit |-> PW(wit'[1], tobj'), pupd |-> PU(upd'[1], tobj')])>>)
+
+\* ---- two-step sequences: a FAILING first call (which must leave everything as it was) followed by Apply on the
+\* same real objects; the harness constructs the pre-state once and runs both calls, so state left behind by the
+\* failed call (e.g. a polluted product memo) shows in the second result
+VARIABLE first
+Failing(res) == res \in {"toonew", "revoked", "invalidated", "missing", "rejected"}
+Gen2Init == GenInit /\ first = [rev |-> <<>>, wit |-> PW(wit[1], tobj), upd |-> PU(upd[1], tobj), act |-> NoResult]
+Gen2Next == \/ /\ nstep = 0
+               /\ \/ \E w \in W, k \in U : Apply(w, k)
+                  \/ \E k \in U, g \in 0..MaxRev, h \in 0..MaxRev, p \in BOOLEAN : Prepend(k, g, h, p) \/ PrependForeign(k, g, h, p)
+               /\ Failing(last'.res)
+               /\ first' = [rev |-> rev, wit |-> PW(wit[1], tobj), upd |-> PU(upd[1], tobj), act |-> last']
+            \/ /\ nstep = 1 /\ \E w \in W, k \in U : Apply(w, k)
+               /\ UNCHANGED first
+\* single transitions (first is carried along unchanged)
+GenSpec == Gen2Init /\ [][GenNext /\ UNCHANGED first]_<<vars, first>>
+Gen2Spec == Gen2Init /\ [][Gen2Next]_<<vars, first>>
+EmitS == nstep' = 2 => PrintT(<<"S", ToJson([rev |-> rev, wit |-> first.wit, upd |-> first.upd, act1 |-> first.act,
+                                            act |-> last', pwit |-> PW(wit'[1], tobj'), pupd |-> PU(upd'[1], tobj')])>>)
 =============================================================================
